@@ -216,7 +216,7 @@ func v2GoType(xt protoreflect.ExtensionType) reflect.Type {
 func foreignDescs(s *subject, e *ext, all []*subject) []foreign {
 	var out []foreign
 	for _, o := range all {
-		if o == s || o.file != s.file || o.rt == s.rt {
+		if o == s || o.gt == nil || s.gt == nil {
 			continue
 		}
 		var oe *ext
@@ -228,8 +228,26 @@ func foreignDescs(s *subject, e *ext, all []*subject) []foreign {
 		if oe == nil {
 			continue
 		}
-		if o.cls == s.cls {
-			continue // gv1 <-> gv2: the same runtime (different message), not a runtime mismatch
+		if o.file != s.file || o.cls == s.cls {
+			// a descriptor of the SAME Go type that extends ANOTHER message: the other google flavour's copy of the file
+			// (gv1 <-> gv2), or the equally numbered extension of another corpus file of the same runtime
+			if o.cls != s.cls || (o.file != s.file && o.rt != s.rt) || (o.file == s.file && o.rt == s.rt) {
+				continue
+			}
+			if o.file != s.file && o.file != "p2def" && s.file != "p2def" {
+				continue // one other file is enough: the p2ext* family against p2def
+			}
+			if s.cls == cGogo {
+				// gogo's own HasExtension / ClearExtension go by field number only, so with a gogo descriptor of another gogo
+				// message csproto answers what the owning runtime answers: that is the property's differential clause, and
+				// there is no "false or error" expectation to check here
+				continue
+			}
+			out = append(out, foreign{label: "same-class-desc-of-another-message", from: o.rt + "/" + o.file, desc: oe.desc, goT: oe.goT, isDesc: true})
+			continue
+		}
+		if o.rt == s.rt {
+			continue
 		}
 		f := foreign{label: o.cls.String() + "-desc", from: o.rt, desc: oe.desc, goT: oe.goT, isDesc: true}
 		switch s.cls {
